@@ -444,6 +444,12 @@ example : M22.guardsPass (1 / 1024 : ℚ) ⟨1 / 2, 0, 0, 1 / 2⟩ := by
   norm_num [M22.guardsPass, M22.det, abs_of_nonneg]
 /-- binary32: `max · min = (2 − 2⁻²³)·2¹²⁷·2⁻¹²⁶ < 4`, so the factor-four hypothesis holds for the real formats -/
 example : ((2 - 1 / 2 ^ 23 : ℚ) * 2 ^ 127) * (1 / 2 ^ 126) ≤ 4 := by norm_num
+/-- binary64: `(2 − 2⁻⁵²)·2¹⁰²³·2⁻¹⁰²² < 4`;  binary16 (`half`): `65504 · 2⁻¹⁴ < 4` -/
+example : ((2 - 1 / 2 ^ 52 : ℚ) * 2 ^ 1023) * (1 / 2 ^ 1022) ≤ 4 := by
+  have e : ((2 - 1 / 2 ^ 52 : ℚ) * 2 ^ 1023) * (1 / 2 ^ 1022) = (2 - 1 / 2 ^ 52) * 2 := by
+    rw [show (2 : ℚ) ^ 1023 = 2 ^ 1022 * 2 by rw [pow_succ]]; field_simp
+  rw [e]; norm_num
+example : (65504 : ℚ) * (1 / 2 ^ 14) ≤ 4 := by norm_num
 /-- the guard does fire (singular matrix), and the identity is returned by the unchecked form -/
 example : Gen.C07.M22.inverseT (1 / 1024 : ℚ) ⟨1, 2, 2, 4⟩ = .error Exc.invalidArgument ∧
     Gen.C07.M22.inverse0 (1 / 1024 : ℚ) ⟨1, 2, 2, 4⟩ = M22.one ℚ := by
@@ -670,6 +676,20 @@ theorem M33_inverseT_tight (tmin : α) (ht : 0 < tmin) (a : M33 α) (k : Exc) (h
     rcases hg with hg | hg | hg | hg | hg | hg | hg | hg | hg <;>
       rcases (inv_guard_fails_iff tmin _ _ ht).mp hg with h0 | h1 <;> tauto
 
+/-- ... which for the IEEE formats (`tmax · tmin ≤ 4`) is within a factor four of the element type's maximum -/
+theorem M33_inverseT_tight_quarter (tmin tmax : α) (ht : 0 < tmin) (h4 : tmax * tmin ≤ 4) (a : M33 α) (k : Exc)
+    (h : Gen.C07.M33.inverseT tmin a = .error k) :
+    M33.det a = 0 ∨
+      (M33.affine a ∧ (tmax / 4 ≤ |a.x11 / M33.det a| ∨ tmax / 4 ≤ |a.x01 / M33.det a| ∨ tmax / 4 ≤ |a.x10 / M33.det a| ∨
+        tmax / 4 ≤ |a.x00 / M33.det a|)) ∨
+      (tmax / 4 ≤ |(M33.adjOverDet a).x00| ∨ tmax / 4 ≤ |(M33.adjOverDet a).x01| ∨ tmax / 4 ≤ |(M33.adjOverDet a).x02| ∨
+       tmax / 4 ≤ |(M33.adjOverDet a).x10| ∨ tmax / 4 ≤ |(M33.adjOverDet a).x11| ∨ tmax / 4 ≤ |(M33.adjOverDet a).x12| ∨
+       tmax / 4 ≤ |(M33.adjOverDet a).x20| ∨ tmax / 4 ≤ |(M33.adjOverDet a).x21| ∨ tmax / 4 ≤ |(M33.adjOverDet a).x22|) := by
+  have q : ∀ x : α, 1 / tmin ≤ x → tmax / 4 ≤ x := fun x hx => quarter_max_le tmin tmax x ht h4 hx
+  rcases (M33_inverseT_tight tmin ht a k h).2 with h0 | ⟨ha, h1 | h1 | h1 | h1⟩ | h1 | h1 | h1 | h1 | h1 | h1 | h1 | h1 | h1
+  · exact Or.inl h0
+  all_goals (have h2 := q _ h1; tauto)
+
 /-- well-conditioned input never throws: `|det| ≥ 1` -/
 theorem M33_inverseT_never (tmin : α) (a : M33 α) (h : 1 ≤ |M33.det a|) :
     Gen.C07.M33.inverseT tmin a = .ok (Gen.C07.M33.inverse0 tmin a) := by
@@ -798,6 +818,18 @@ theorem M44_inverseT_tight (tmin : α) (ht : 0 < tmin) (gjTv : M44 α → M44 α
     rcases hg with hg | hg | hg | hg | hg | hg | hg | hg | hg <;>
       rcases (inv_guard_fails_iff tmin _ _ ht).mp hg with h0 | h1 <;> tauto
   · exact absurd ha hna
+
+/-- ... which for the IEEE formats (`tmax · tmin ≤ 4`) is within a factor four of the element type's maximum -/
+theorem M44_inverseT_tight_quarter (tmin tmax : α) (ht : 0 < tmin) (h4 : tmax * tmin ≤ 4) (gjTv : M44 α → M44 α) (gjTs : M44 α → α)
+    (a : M44 α) (k : Exc) (ha : M44.affine a) (h : Gen.C07.M44.inverseT tmin gjTs gjTv a = .error k) :
+    M33.det (M44.upper a) = 0 ∨
+      (tmax / 4 ≤ |(M44.affineInverse a).x00| ∨ tmax / 4 ≤ |(M44.affineInverse a).x01| ∨ tmax / 4 ≤ |(M44.affineInverse a).x02| ∨
+       tmax / 4 ≤ |(M44.affineInverse a).x10| ∨ tmax / 4 ≤ |(M44.affineInverse a).x11| ∨ tmax / 4 ≤ |(M44.affineInverse a).x12| ∨
+       tmax / 4 ≤ |(M44.affineInverse a).x20| ∨ tmax / 4 ≤ |(M44.affineInverse a).x21| ∨ tmax / 4 ≤ |(M44.affineInverse a).x22|) := by
+  have q : ∀ x : α, 1 / tmin ≤ x → tmax / 4 ≤ x := fun x hx => quarter_max_le tmin tmax x ht h4 hx
+  rcases (M44_inverseT_tight tmin ht gjTv gjTs a k ha h).2 with h0 | h1 | h1 | h1 | h1 | h1 | h1 | h1 | h1 | h1
+  · exact Or.inl h0
+  all_goals (have h2 := q _ h1; tauto)
 
 /-- well-conditioned input never throws: an affine matrix with `|det| ≥ 1`, or a non-affine one on which `gjInverse (true)` returns -/
 theorem M44_inverseT_never (tmin : α) (gj gjTv : M44 α → M44 α) (gjTs : M44 α → α) (a : M44 α)
